@@ -747,6 +747,30 @@ func (g *genCase) fsCase() string {
 	return fmt.Sprintf("fs %s %s %d %s %s %s %s %s", encs, prefer, min, pre, file, method, ae, r)
 }
 
+// pxCase: reverse_proxy (flush timer) behind encode; mostly eligible responses with the slow-client schedule
+func (g *genCase) pxCase() string {
+	rng := g.rng
+	coding := rng.Pick([]string{"gzip", "gzip", "zstd"})
+	min := pickInt(rng, []int{0, 0, 1, 100, 512})
+	ae := core.Hex(rng.Pick([]string{"gzip, zstd", "zstd, gzip", "gzip", "zstd", "gzip, deflate, br, zstd"}))
+	sched := "s"
+	n1 := 2000 + rng.Intn(14000)
+	n2 := 1 + rng.Intn(16000)
+	interval := pickInt(rng, []int{3, 5, 10, 20})
+	switch rng.Intn(8) {
+	case 0:
+		ae, sched = "~", "n" // not encoded at all
+	case 1:
+		interval, sched = -1, "n" // flush inside Write
+	case 2:
+		n1, sched = 1+rng.Intn(300), "n" // below the minimum length: stays plain
+	case 3:
+		sched = "n"
+	}
+	kind := string("jjtmr"[rng.Intn(5)])
+	return fmt.Sprintf("px %s %d %s %d %d %d %s %s", coding, min, ae, interval, n1, n2, kind, sched)
+}
+
 func (p *prop) Generate(rng *core.Rand, tier string, emit func(string)) {
 	n := 6000
 	switch tier {
@@ -779,6 +803,18 @@ func (p *prop) Generate(rng *core.Rand, tier string, emit func(string)) {
 		nfs = 1500
 	}
 	p.fsScriptCases(g, nfs, emit)
+	npx := 24
+	if tier == "thorough" {
+		npx = 240
+	} else if tier == "search" {
+		npx = 80
+	}
+	for i := 0; i < npx; i++ {
+		emit(g.pxCase())
+	}
+	for _, m := range []string{"px gzip 0 ~ 5 10 10 t", "px br 0 ~ 5 10 10 t n", "px gzip 0 ~ 0 10 10 t n", "px gzip 0 ~ 5 0 10 t n", "px gzip 0 ~ 5 10 10 q n", "px gzip 0 ~ 5 10 10 t x", "px gzip x ~ 5 10 10 t n", "px gzip 0 zz 5 10 10 t n", "px gzip 0 ~ 2000 10 10 t n"} {
+		emit(m)
+	}
 	for _, m := range []string{"cf", "cf - - -", "cf a,,b -", "cf - gzip;", "cf - match{", "cf - match{a}b", "cf g{ -", "cf - a{b}{c}", "cf x$y -",
 		"fs gzip - 0 - a G ~", "fs gzip zstd 0 - a G ~ -", "fs br - 0 - a G ~ -", "fs gzip - 0 - z G ~ -", "fs gzip - x - a G ~ -", "fs gzip - 0 - a P ~ -",
 		"fs gzip - 0 - a G zz -", "fs gzip - 0 - a G ~ 1-", "fs gzip,gzip - 0 - a G ~ -", "fs gzip - 0 br a G ~ -", "fs gzip - 0 - a G ~ 1-2-3"} {
